@@ -7,6 +7,10 @@ from props.common import *
 from props.env import install_env, path_id, fs_fact, fs_axioms
 
 
+# "op_to designates the very inode op_from designates" (another spelling, a hard link, a symlink to it)
+ALIAS = z3.Bool("op_from_and_op_to_are_the_same_inode")
+
+
 def _channel(eng, ops):
     """`for op in work`: the first recv yields an arbitrary operation (one path per kind), the second
     reports the closed queue.  Workers carry no state across iterations except config/updater."""
@@ -52,6 +56,15 @@ def _common(ctx, eng):
         return [Outcome(ok(h), events=[Event("CopyHandle::new", a, "ok")]),
                 Outcome(err("anyhow::Error"), events=[Event("CopyHandle::new", a, "err")])]
     eng.add_summary(r"^CopyHandle::new$", s_new)
+
+    # identity of two paths (libfs::is_same_file): a file-system fact like exists(); an alias of the source exists
+    def s_same(eng, st, callee, args, dty):
+        a = [path_id(eng, st, args[0]), path_id(eng, st, args[1])]
+        names = sorted(getattr(x, "name", repr(x)) for x in a)
+        fact = ALIAS if names == ["op_from", "op_to"] else z3.Bool("same_inode_%s_%s" % tuple(names))
+        return [Outcome(ok(BoolV(fact)), events=[Event("identity-check", a, BoolV(fact))]),
+                Outcome(err("libfs::Error"), events=[Event("identity-check", a, "err")])]
+    eng.add_summary(r"^(libfs::)?is_same_file$", s_same)
 
     def s_copy_file(eng, st, callee, args, dty):
         return [Outcome(ok(IntV(0, "u64")), events=[Event("copy_file", [], "ok")]),
@@ -145,9 +158,14 @@ def _check_arms(ctx, eng, paths, cv, driver):
                 continue
             # the fact the lemmas are about is "something exists at the destination", whichever probe the code uses
             existed = fs_fact("exists", "op_to")
-            p.pc = p.pc + fs_axioms("op_to")
+            p.pc = p.pc + fs_axioms("op_to") + [z3.Implies(ALIAS, existed)]
+            # C03: the entry at the destination may be the source itself under another spelling: removing it deletes the source
+            if rm:
+                ctx.lemma(eng, "C03: the special-file arm never removes the destination entry when it designates the source itself (another spelling of the same node)",
+                          p.pc, z3.Not(ALIAS), key="worker-special:alias-removed")
             if is_err(p.ret):
-                ctx.lemma(eng, "C08: the special-file arm refuses only for an existing destination under no-clobber", p.pc, z3.And(existed, noclob))
+                ctx.lemma(eng, "C08: the special-file arm refuses only for an existing destination under no-clobber (or one that is the source itself)", p.pc,
+                          z3.And(existed, z3.Or(noclob, ALIAS)))
                 if rm or cn:
                     ctx.fail("C08: nothing is removed or created once the collision is detected", str(names))
                 continue
